@@ -11,7 +11,7 @@
 
    "cleaned" = Cleaning.clean: leading/trailing C0-or-space bytes and all tab/newline bytes removed. *)
 From Verif Require Import Lib.Base Lib.Utf8 Lib.GoStr Model.Cfg Gen.Tables Gen.Options Model.Sets Model.Percent Model.Url Model.Host Model.Machine Model.Api.
-From Verif Require Import Proofs.Cleaning Proofs.PhaseLemmas Proofs.SchemeKept.
+From Verif Require Import Proofs.Utf8Proofs Proofs.RecordInv Proofs.Cleaning Proofs.PhaseLemmas Proofs.SchemeKept.
 From Coq Require Import Lia ZifyBool ZifyN ZifyNat.
 
 Local Arguments N.mul : simpl never.
@@ -207,7 +207,7 @@ Section Resolve.
                             (mk NoScheme (-1) false [] false false false (empty_url (clean ref)))).
   Proof.
     intros Hp. rewrite UrlParse_run. unfold m0.
-    destruct (no_scheme_phase idna_raw c (decode (clean ref)) (Some (clone b)) None false false false
+    destruct (no_scheme_phase idna_raw c Hrep Hfail (decode (clean ref)) (Some (clone b)) None false false false
                 (empty_url (clean ref)) eq_refl Hp) as [k [Hk Hr]].
     rewrite (fuel_split _ k) by lia. rewrite Hr.
     exists (Datatypes.S (fuel_of (length (decode (clean ref))) - k - 2)). split; [unfold fuel_of; lia|].
@@ -221,9 +221,8 @@ Section Resolve.
     UP b ref = PErr (missing_scheme (clean ref)).
   Proof.
     intros Ho Hp Hh. destruct (no_prefix_run b ref Hp) as [g [_ ->]].
-    erewrite run_err; [reflexivity|].
     assert (H35 : (cp_at (decode (clean ref)) 0 =? 35) = false) by (rewrite cp0_hash; exact Hh).
-    eapply step_noscheme_opaque_err; side.
+    erewrite run_err; [ | eapply step_noscheme_opaque_err; side ]. reflexivity.
   Qed.
 
   (* L7: a reference without a scheme of its own resolves to a URL with the base's scheme *)
@@ -305,13 +304,11 @@ Section Resolve.
     destruct (str_eqb (u_scheme b) s_file) eqn:Ef.
     - step_with step_noscheme_file.
       step_with step_file_question.
-      rewrite (query_phase idna_raw c Hrep Hfail inp _ None _ 0%Z _ _ _ _ _ [] eq_refl eq_refl)
-        by (try lia; exact Hlen).
+      erewrite query_phase; [ | first [exact Hrep | exact Hfail | reflexivity | exact Hlen | lia] .. ].
       rewrite Hrest. reflexivity.
     - step_with step_noscheme_relative.
       step_with step_relative_question.
-      rewrite (query_phase idna_raw c Hrep Hfail inp _ None _ 0%Z _ _ _ _ _ [] eq_refl eq_refl)
-        by (try lia; exact Hlen).
+      erewrite query_phase; [ | first [exact Hrep | exact Hfail | reflexivity | exact Hlen | lia] .. ].
       rewrite Hrest. reflexivity.
   Qed.
 
@@ -323,8 +320,9 @@ Section Resolve.
   Proof.
     intros Hw Hc Hno Eo. eexists. split; [apply (query_ref_exact b ref q Hc Eo)|].
     destruct (resolved_copy_fields (63 :: q) b Hw) as [Hk [_ Hf]].
-    unfold query_result. rewrite (query_split_nohash _ Hno).
-    unfold queryset at 1. fields. fold (queryset c (resolved_copy (63 :: q) b)). rewrite queryset_copy.
+    assert (Hqs : queryset c (set_query (resolved_copy (63 :: q) b) (Some [])) = queryset c b)
+      by (rewrite <- (queryset_copy (63 :: q) b); reflexivity).
+    unfold query_result. rewrite (query_split_nohash _ Hno), Hqs. cbn [app].
     split; [exact Hk|]. split; [reflexivity|exact Hf].
   Qed.
 
@@ -337,10 +335,11 @@ Section Resolve.
   Proof.
     intros Hw Hc Hq Hno Eo. eexists. split; [apply (query_ref_exact b ref q Hc Eo)|].
     destruct (resolved_copy_fields (63 :: q) b Hw) as [Hk [_ Hf]].
-    unfold query_result. rewrite Hq, (query_split_hash q1 f Hno).
-    unfold queryset at 1, fragset at 1. fields.
-    fold (queryset c (resolved_copy (63 :: q) b)). fold (fragset c (resolved_copy (63 :: q) b)).
-    rewrite queryset_copy, fragset_copy.
+    assert (Hqs : queryset c (set_query (resolved_copy (63 :: q) b) (Some [])) = queryset c b)
+      by (rewrite <- (queryset_copy (63 :: q) b); reflexivity).
+    assert (Hfs : fragset c (set_query (resolved_copy (63 :: q) b) (Some [])) = fragset c b)
+      by (rewrite <- (fragset_copy (63 :: q) b); reflexivity).
+    unfold query_result. rewrite Hq, (query_split_hash q1 f Hno), Hqs, Hfs. cbn [app].
     split; [exact Hk|]. split; reflexivity.
   Qed.
 End Resolve.
@@ -356,3 +355,154 @@ Print Assumptions query_only_ref.
 Print Assumptions query_fragment_ref.
 Print Assumptions opaque_base_rejects_relative.
 Print Assumptions relative_keeps_scheme.
+
+(* ------------------------------------------------------------------------------------------ *)
+(* the hypotheses at byte level                                                                 *)
+(* ------------------------------------------------------------------------------------------ *)
+
+(* a '#' among the code points of s is a '#' byte of s *)
+Lemma dec1_hash b0 rest r rest' : dec1 b0 rest = (r, rest') -> rv r = 35 -> b0 = 35.
+Proof.
+  intros H Hr. unfold dec1 in H. cbv zeta in H.
+  dec1_split H; inversion H; subst; cbn [rv] in Hr; unfold in_rng, is_cont, rune_error in *; lia.
+Qed.
+
+Lemma dec1_suffix b0 rest r rest' x : dec1 b0 rest = (r, rest') -> In x rest' -> In x rest.
+Proof.
+  intros H Hx. unfold dec1 in H. cbv zeta in H.
+  dec1_split H; inversion H; subst; cbn [In]; auto.
+Qed.
+
+Theorem runes_no_hash s : ~ In 35 s -> ~ In 35 (runes s).
+Proof.
+  intros Hs Hr. apply Hs. revert Hr. unfold runes.
+  apply (decode_ind (fun s l => In 35 (map rv l) -> In 35 s)); [intros []|].
+  intros b0 rest r rest' E IH Hin. cbn [map In] in Hin. destruct Hin as [Hin|Hin].
+  - left. apply (dec1_hash _ _ _ _ E Hin).
+  - right. apply (dec1_suffix _ _ _ _ _ E). apply IH, Hin.
+Qed.
+Print Assumptions runes_no_hash.
+
+(* L5 with the hypothesis on the bytes of the reference *)
+Corollary query_only_ref_bytes idna_raw c b ref q :
+  c_report c = false -> c_fail c = false ->
+  wfb b -> clean ref = 63 :: q -> ~ In 35 q -> u_opaque b = false ->
+  exists u', UrlParse idna_raw c b ref = PUrl u' /\ keeps_base u' b /\
+             u_query u' = Some (enc_with c (queryset c b) (runes q)) /\ u_fragment u' = None.
+Proof.
+  intros Hrep Hfail Hw Hc Hno Eo.
+  apply (query_only_ref idna_raw c Hrep Hfail b ref q Hw Hc (runes_no_hash q Hno) Eo).
+Qed.
+Print Assumptions query_only_ref_bytes.
+
+(* every record satisfying the record invariant of RecordInv.v is a well-formed base *)
+Theorem Inv_wfb c b : Inv c b -> wfb b.
+Proof.
+  intros H. split.
+  - intros Ho. destruct (I_opaque c b H Ho) as [Hh _]. exact Hh.
+  - intros [Ho|Hs]; apply (I_nocred c b H).
+    + left. destruct (I_opaque c b H Ho) as [Hh _]. exact Hh.
+    + right. right. rewrite Hs. reflexivity.
+Qed.
+Print Assumptions Inv_wfb.
+
+(* ------------------------------------------------------------------------------------------ *)
+(* concrete instances: the premises are satisfiable; wfb cannot be dropped                       *)
+(* ------------------------------------------------------------------------------------------ *)
+From Coq Require Import String.
+Local Open Scope string_scope.
+
+Definition ex_idna (s : str) : str * bool := (s, false).
+Definition ex_base (s : string) : url :=
+  match Parse ex_idna default_cfg (bs s) with PUrl u => u | _ => empty_url [] end.
+Definition ex_http : url := ex_base "http://u:p@h:81/a/b?q#f".
+Definition ex_opaque : url := ex_base "sc:opaque?q#f".
+Definition ex_file : url := ex_base "file:///C:/x?y".
+(* " #a<TAB><LF> b " *)
+Definition ex_ref_frag : str := ([32] ++ bs "#a" ++ [9; 10] ++ bs " b" ++ [32])%list.
+Definition ex_ref_query : str := ([32] ++ bs "?x" ++ [9] ++ bs " y" ++ [10])%list.
+
+Ltac wfb_ex :=
+  unfold wfb; vm_compute;
+  split; [intros H; first [discriminate H | reflexivity]
+         | intros [H|H]; first [discriminate H | repeat split; reflexivity]].
+
+Example ex_cfg_quiet : c_report default_cfg = false /\ c_fail default_cfg = false.
+Proof. split; reflexivity. Qed.
+Example ex_http_wfb : wfb ex_http.   Proof. wfb_ex. Qed.
+Example ex_opaque_wfb : wfb ex_opaque. Proof. wfb_ex. Qed.
+Example ex_file_wfb : wfb ex_file.   Proof. wfb_ex. Qed.
+
+Definition href_of (r : pres) : option str := match r with PUrl u => Href u false | _ => None end.
+
+(* L0 *)
+Example entry_points_agree_ex :
+  bs "http://u:p@h:81/a/b?q#f" <> [] /\ Parse ex_idna default_cfg (bs "http://u:p@h:81/a/b?q#f") = PUrl ex_http /\
+  href_of (ParseRef ex_idna default_cfg (bs "http://u:p@h:81/a/b?q#f") (bs "../x")) = Some (bs "http://u:p@h:81/x").
+Proof. split; [discriminate|]. split; vm_compute; reflexivity. Qed.
+
+(* L3: premises and what the theorem then says, for the three kinds of base *)
+Example fragment_only_ref_ex :
+  clean ex_ref_frag = 35 :: bs "a b" /\
+  href_of (UrlParse ex_idna default_cfg ex_http ex_ref_frag) = Some (bs "http://u:p@h:81/a/b?q#a%20b") /\
+  href_of (UrlParse ex_idna default_cfg ex_opaque ex_ref_frag) = Some (bs "sc:opaque?q#a%20b") /\
+  href_of (UrlParse ex_idna default_cfg ex_file ex_ref_frag) = Some (bs "file:///C:/x?y#a%20b").
+Proof. repeat split; vm_compute; reflexivity. Qed.
+
+(* L4 *)
+Example empty_ref_ex :
+  clean (bs "  ") = [] /\ u_opaque ex_http = false /\ u_opaque ex_opaque = true /\
+  href_of (UrlParse ex_idna default_cfg ex_http (bs "  ")) = Some (bs "http://u:p@h:81/a/b?q") /\
+  UrlParse ex_idna default_cfg ex_opaque (bs "  ") = PErr (missing_scheme []).
+Proof. repeat split; vm_compute; reflexivity. Qed.
+
+(* L5 *)
+Example query_only_ref_ex :
+  clean ex_ref_query = 63 :: bs "x y" /\ ~ In 35 (bs "x y") /\ u_opaque ex_file = false /\
+  href_of (UrlParse ex_idna default_cfg ex_http ex_ref_query) = Some (bs "http://u:p@h:81/a/b?x%20y") /\
+  href_of (UrlParse ex_idna default_cfg ex_file ex_ref_query) = Some (bs "file:///C:/x?x%20y").
+Proof.
+  split; [vm_compute; reflexivity|]. split; [vm_compute; intros [H|[H|[H|[]]]]; discriminate H|].
+  repeat split; vm_compute; reflexivity.
+Qed.
+
+(* L6: "1:x" and "a b:c" have no scheme prefix, "ab+c.d-e:x" has one *)
+Example opaque_base_rejects_relative_ex :
+  u_opaque ex_opaque = true /\
+  has_scheme_prefix (runes (clean (bs "1:x"))) = false /\ starts_with_hash (runes (clean (bs "1:x"))) = false /\
+  has_scheme_prefix (runes (clean (bs "a b:c"))) = false /\
+  has_scheme_prefix (runes (clean (bs "ab+c.d-e:x"))) = true /\
+  UrlParse ex_idna default_cfg ex_opaque (bs "1:x") = PErr (missing_scheme (bs "1:x")).
+Proof. repeat split; vm_compute; reflexivity. Qed.
+
+(* L7 *)
+Example relative_keeps_scheme_ex :
+  has_scheme_prefix (runes (clean (bs "../a b:c?d#e"))) = false /\
+  href_of (UrlParse ex_idna default_cfg ex_http (bs "../a b:c?d#e")) = Some (bs "http://u:p@h:81/a%20b:c?d#e").
+Proof. split; vm_compute; reflexivity. Qed.
+
+(* wfb is needed in L3 - L5: on a record that violates it the base's components are not all kept.
+   An opaque-path record with a username (the state NoScheme copies scheme, path and query only), and
+   a file record with a port (the state File copies host, path and query only). *)
+Definition bad_opaque : url := set_username ex_opaque [117].
+Definition bad_file : url := set_port ex_file (Some [56]) 8.
+
+Definition fragment_only_ref_unconditional : Prop :=
+  forall idna_raw c b ref f, c_report c = false -> c_fail c = false -> clean ref = 35 :: f ->
+  exists u', UrlParse idna_raw c b ref = PUrl u' /\ keeps_base u' b.
+
+Theorem fragment_only_ref_unconditional_refuted : ~ fragment_only_ref_unconditional.
+Proof.
+  intros H. destruct (H ex_idna default_cfg bad_opaque (bs "#x") (bs "x") eq_refl eq_refl eq_refl) as [u' [E K]].
+  destruct K as [_ [K _]]. vm_compute in E. injection E as <-. vm_compute in K. discriminate K.
+Qed.
+Print Assumptions fragment_only_ref_unconditional_refuted.
+
+Example wfb_needed_file :
+  ~ wfb bad_file /\ clean (bs "#x") = 35 :: bs "x" /\
+  exists u', UrlParse ex_idna default_cfg bad_file (bs "#x") = PUrl u' /\ u_port u' <> u_port bad_file.
+Proof.
+  split.
+  - intros [_ W]. destruct (W (or_intror eq_refl)) as [_ [_ P]]. vm_compute in P. discriminate P.
+  - split; [vm_compute; reflexivity|]. eexists. split; [vm_compute; reflexivity|]. vm_compute. discriminate.
+Qed.
